@@ -179,3 +179,35 @@ Proof.
   apply (tie_prev_glob "-idx" ".pkl" "s" r n Hr); reflexivity.
 Qed.
 
+
+(* ---- how tasks are formed and labelled (Gen/GMr.batch_label_width, file_label_width; the
+   translator also checks that the batch plan is exactly
+   [(str(i).zfill(z), _sort_batch(b)) for i, b in enumerate(batched(file_pairs, bin_size))]
+   on the unmodified parameters and that the file tasks are labelled in input order) ---- *)
+From BB Require Import Proofs.FpsFacts.
+From Coq Require Import ZArith.
+
+Lemma ceil_div_nat n b : (0 < b)%nat ->
+  ceil_div (Z.of_nat n) (Z.of_nat b) = Z.of_nat (Nat.div (n + b - 1) b).
+Proof.
+  intros Hb. unfold ceil_div.
+  assert (Hb' : 0 < Z.of_nat b) by lia.
+  rewrite Nat2Z.inj_div. replace (Z.of_nat (n + b - 1)) with (Z.of_nat n + Z.of_nat b - 1) by lia.
+  set (N := Z.of_nat n). set (B := Z.of_nat b). fold B in Hb'.
+  assert (HN : 0 <= N) by (unfold N; lia).
+  pose proof (Z.div_mod (- N) B ltac:(lia)) as E1. pose proof (Z.mod_pos_bound (- N) B Hb') as M1.
+  pose proof (Z.div_mod (N + B - 1) B ltac:(lia)) as E2. pose proof (Z.mod_pos_bound (N + B - 1) B Hb') as M2.
+  nia.
+Qed.
+
+Lemma tie_batch_width d r bin : (0 < bin)%nat ->
+  Z.of_nat (String.length (str_of_Z (Z.of_nat (List.length (batched bin (prev_pairs d r)))))) =
+  GMr.batch_label_width (Z.of_nat (List.length (prev_pairs d r))) (Z.of_nat bin).
+Proof.
+  intros Hb. unfold GMr.batch_label_width. rewrite (batched_length bin _ Hb), ceil_div_nat by exact Hb.
+  reflexivity.
+Qed.
+
+Lemma tie_file_label_width n :
+  file_labels n = map (fun i => zfill (str_of_Z i) (GMr.file_label_width (Z.of_nat n))) (zseq 0 n).
+Proof. reflexivity. Qed.
